@@ -346,6 +346,36 @@ func c16Cases(tier string) ([]chainCase, map[string]int) {
 			}
 		}
 	}
+	// the replayed transaction shared its block with a transaction that was rejected by the ante handler (placed
+	// before it): it must be recognised as a duplicate all the same
+	{
+		orig, err := buildTxBytes(txs[0].t, firstHeight)
+		if err != nil {
+			panic(err)
+		}
+		bad := tx("send", "A2", "to", "A1", "amount", "1")
+		bad.Fee = "1" // below the required fee: rejected by the ante handler (codespace auth)
+		first := TxSpec{Kind: "raw:send:original", Raw: hex.EncodeToString(orig)}
+		for _, gap := range []int{1, 2} {
+			gap := gap
+			ref := []BlockSpec{blk(bad, first)}
+			sub := []BlockSpec{blk(bad, first)}
+			for i := 1; i < gap; i++ {
+				ref, sub = append(ref, BlockSpec{}), append(sub, BlockSpec{})
+			}
+			ref, sub = append(ref, BlockSpec{}), append(sub, blk(first))
+			cases = append(cases, chainCase{Name: fmt.Sprintf("send/identical-bytes-after-ante-failure-in-block/gap%d", gap), Class: "identical", Env: env, Ref: ref, Subject: sub, Want: []string{"balances"},
+				Oracle: func(r, s JobResult) (string, string) {
+					if len(r.Blocks[0].Txs) < 2 || r.Blocks[0].Txs[0].Code == 0 || r.Blocks[0].Txs[1].Code != 0 {
+						return "", "" // not the intended shape
+					}
+					if lastHash(r) != lastHash(s) {
+						return "signed-tx-took-effect-twice/identical-bytes", fmt.Sprintf("a send that was delivered right after an ante-rejected transaction of the same block took effect again when its identical bytes were resubmitted %d block(s) later (result code %d; additional balance changes %s)", gap, lastTx(s).Code, deltaStr(balanceDelta(r, s)))
+					}
+					return "", ""
+				}})
+		}
+	}
 	return cases, stats
 }
 
